@@ -16,6 +16,7 @@ import EPV.Lemmas.HeatTraced
 import EPV.Lemmas.HeatSphere
 import EPV.Lemmas.HeatRect
 import EPV.Gen.RectangleN2
+import EPV.Lemmas.Bridge.HeatTac
 
 set_option linter.all false
 
@@ -102,7 +103,7 @@ theorem rectangleN2_heat_eq (p : RectangleN2.P) (x y t : ℝ) :
     simp only [epv_tree, epv_leaf, rect, Finset.sum_range_succ, Finset.sum_range_zero, rectAnm_real, rectKn_real,
       rectKm_real, rectC]
     push_cast
-    ring_nf
+    heat_eq
   rw [h, rectangle_eq]
   exact rect_heat_eq 2 p.kappa _ _ _ _ _ _ x y t
 
